@@ -173,7 +173,7 @@ def pubWorldOp (j : Json) : Except String Res := do
   let hostOf (id : Json) : String := match id with
     | Json.str s => (hostOfId s).getD (((s.splitOn "/").take 3).foldl (· ++ "/" ++ ·) "")
     | _ => ""
-  let rec authorsOk (d : Json) : Bool :=
+  let postAuthorsOk (d : Json) : Bool :=
     match d.getObjVal? "k" with
     | .ok (Json.str "post") =>
       let pid := (d.getObjVal? "id").toOption.getD Json.null
@@ -186,6 +186,11 @@ def pubWorldOp (j : Json) : Except String Res := do
         | _ => true
       | _ => true
     | _ => true
+  -- ... also when the post is shown as what an activity is about (and that activity inside another)
+  let authorsOk (d : Json) : Bool :=
+    let t1 := (d.getObjVal? "target").toOption.getD Json.null
+    let t2 := (t1.getObjVal? "target").toOption.getD Json.null
+    postAuthorsOk d && postAuthorsOk t1 && postAuthorsOk t2
   let authors := all.all authorsOk
   -- C10: the listing delivers the items of the pages, each once, in order (ids and kinds of the
   -- delivered entries against the harvest of the model over the same world)
